@@ -77,6 +77,13 @@ def _isinf_elem(e):
     return SBool(bz(e.isinf()))
 
 
+def _isfinite_elem(e):
+    if isinstance(e, SBool):
+        return SBool(True)
+    e = SNum.lift(e)
+    return SBool(bz(e.isfin()))
+
+
 def _num(e):
     return e.num() if isinstance(e, SBool) else SNum.lift(e)
 
@@ -190,6 +197,7 @@ class NpShim(object):
     # ---- predicates
     isnan = staticmethod(_elementwise1("isnan", _isnan_elem, "bool"))
     isinf = staticmethod(_elementwise1("isinf", _isinf_elem, "bool"))
+    isfinite = staticmethod(_elementwise1("isfinite", _isfinite_elem, "bool"))
     abs = staticmethod(_elementwise1("abs", lambda e: sym.num_abs(_num(e))))
     sqrt = staticmethod(_elementwise1("sqrt", lambda e: sym.num_sqrt(_num(e))))
     log = staticmethod(_elementwise1("log", lambda e: sym.num_log(_num(e), "ln")))
